@@ -167,7 +167,7 @@ def gen_call(t: Tape, idx: int, corpus: list, heavy: bool = False) -> dict:
     api = t.weighted([("tool.validate", 8), ("tool.write", 5), ("tool.eject", 3), ("tool.compile_grammar", 2), ("tool.validate_file", 1),
                       ("py.tokenize", 1), ("py.parse", 1), ("py.parse_with_warnings", 1), ("py.emit", 2), ("py.validate", 2),
                       ("py.repair", 1), ("py.project", 1), ("py.seal", 2), ("py.gbnf_schema", 1), ("py.gbnf_meta", 1),
-                      ("py.load_schema", 1), ("cli", 2)], "call.api")
+                      ("py.load_schema", 1), ("py.coverage", 1), ("cli", 2)], "call.api")
     c = {"id": idx, "api": api, "doc_kind": dk, "text": text, "schema": schema}
     if api in ("tool.validate", "tool.validate_file"):
         a = {}
@@ -214,6 +214,12 @@ def gen_call(t: Tape, idx: int, corpus: list, heavy: bool = False) -> dict:
             c["text"] = doc_contract(t, m)
     elif api == "py.project":
         c["mode"] = t.pick(["canonical", "authoring", "executive", "developer"], "pj.mode")
+    elif api == "py.coverage":
+        # spec and skill documents with several overlapping / missing / novel section ids (the result lists come from sets)
+        ids = t.shuffle(["1", "2", "3", "4", "5", "6", "7", "8", "9", "A", "B"], "cov.ids")
+        spec_ids, skill_ids = ids[: 4 + t.choose(5, "cov.n1")], ids[2: 5 + t.choose(6, "cov.n2")]
+        c["text"] = "===SPEC===\n" + "".join(f"§{i}::S{i}\n  X::1\n" for i in spec_ids) + "===END===\n"
+        c["text2"] = "===SKILL===\n" + "".join(f"§{i}::K{i}\n  Y::2\n" for i in skill_ids) + "===END===\n"
     elif api == "cli":
         c["cmd"] = t.pick(["validate", "normalize", "eject", "seal", "validate_fix"], "cli.cmd")
     return c
@@ -407,6 +413,11 @@ def exec_py(c: dict, d: str):
 
         doc = parse(text)
         return {"gbnf": compile_gbnf_from_meta(doc.meta)}
+    if api == "py.coverage":
+        from octave_mcp.core.coverage_mapper import compute_coverage, format_coverage_report
+
+        r = compute_coverage(parse(text), parse(c.get("text2") or ""))
+        return {"coverage": dump(r), "report": format_coverage_report(r)}
     if api == "py.load_schema":
         from octave_mcp.schemas.loader import load_builtin_schemas, load_schema_by_name
 
